@@ -582,7 +582,7 @@ class Spectrum(Generic[_TData]):
     def start_frequency(self, value: float) -> None:
         if not isinstance(value, (float, int)):
             raise invalid_arg_type("start frequency", "float", value)
-        self._start_frequency = value
+        self._start_frequency = float(value)
 
     @property
     def frequency_increment(self) -> float:
@@ -593,7 +593,7 @@ class Spectrum(Generic[_TData]):
     def frequency_increment(self, value: float) -> None:
         if not isinstance(value, (float, int)):
             raise invalid_arg_type("frequency increment", "float", value)
-        self._frequency_increment = value
+        self._frequency_increment = float(value)
 
     @property
     def extended_properties(self) -> ExtendedPropertyDictionary:
